@@ -434,6 +434,11 @@ func oddGrids() []*Grid {
 			g.Dyadic = false
 			oddGridsCache = append(oddGridsCache, g)
 		}
+		// tiles whose width is not a power of two (24 pixels): the level of a tile matrix is id + floor(log2 24) + 4
+		if g, err := newSyntheticGridTW(2, 1, 0, 0, 24); err == nil {
+			g.Dyadic = false
+			oddGridsCache = append(oddGridsCache, g)
+		}
 	}
 	return oddGridsCache
 }
